@@ -2283,6 +2283,7 @@ class Machine(skel.Skel):
         self.blocks, self.bases = [], []
         self.top = 1 << 24
         self.steps = 0
+        self.act = self.act_serial = 0      # the running activation (a closure is only called from the activation that made it)
 
     # ---- memory
     def alloc(self, n, fill=None, soft=False):
@@ -2336,7 +2337,61 @@ class Machine(skel.Skel):
             elif e.get("cast") == "IntegralToBoolean" and isinstance(v, int):
                 v = v != 0
             return v
+        if e is not None and e["k"] == "LambdaExpr":
+            return self.closure(e)
         return skel.Skel.ev(self, e)
+
+    def closure(self, e):
+        """value of a lambda expression: its call operator, the activation that made it and the copies of the by-value captures.  The
+        by-reference captures (and this) need no entry: the closure is only ever called from the activation that made it (anything else
+        is `cannot decide`), where the captured names still denote the same objects."""
+        if "fn" not in e or self.tu is None or self.tu.by_did.get(e["fn"]) is None or self.tu.by_did[e["fn"]].body is None:
+            raise Undecidable("%s: the call operator of this lambda is not available (generic lambda?); not modelled" % self.fn.nloc(e))
+        copies = {}
+        for c in e.get("captures") or []:
+            if c.get("name") == "this" and "id" not in c:
+                if not c.get("byref"):
+                    raise Undecidable("%s: a lambda with a copy of *this is not modelled" % self.fn.nloc(e))
+                continue
+            if "id" not in c:
+                raise Undecidable("%s: a capture of this lambda is not understood" % self.fn.nloc(e))
+            d = c["id"]
+            if d not in self.alias and d not in self.env:
+                raise Undecidable("%s: the lambda captures %s, which has no value in the evaluation" % (self.fn.nloc(e), c.get("name")))
+            if not c.get("byref"):
+                copies[d] = self.load(self.alias[d]) if d in self.alias else self.env[d]
+        return ("closure", e["fn"], self.act, copies)
+
+    def call_closure(self, e, clo, actual):
+        """call of a local lambda from the activation that made it: its body runs in a frame of its own; names captured by reference
+        denote the variables of the enclosing activations (which are all still there), names captured by value hold the copies"""
+        callee = self.tu.by_did.get(clo[1])
+        if clo[2] != self.act:
+            raise Undecidable("%s: a lambda is called from another activation than the one that made it; not modelled" % self.fn.nloc(e))
+        if len(actual) != len(callee.params):
+            raise Undecidable("%s: call of a lambda with default or variadic arguments; not modelled" % self.fn.nloc(e))
+        if self.depth >= 80:
+            raise Undecidable("%s: the evaluation of the classifier nests more than 80 calls" % self.fn.nloc(e))
+        copies = clo[3]
+        saved_env = dict((d, self.env[d]) for d in copies if d in self.env)
+        saved_alias = dict((d, self.alias[d]) for d in copies if d in self.alias)
+        # the arguments are evaluated in the caller's view (before the copies shadow the captured names)
+        binds = self.bind_args(callee, actual)
+        for d, v in copies.items():
+            self.alias.pop(d, None)
+            self.env[d] = v
+        try:
+            ret = self.call(callee, None, binds=binds)
+            for d, v in copies.items():
+                if d in self.alias or self.env.get(d) is not v and self.env.get(d) != v:
+                    raise Undecidable("%s: the lambda changes a by-value capture (mutable lambda); not modelled" % self.fn.nloc(e))
+        finally:
+            for d in copies:
+                self.env.pop(d, None)
+                self.alias.pop(d, None)
+            self.env.update(saved_env)
+            self.alias.update(saved_alias)
+        return ret
 
     def arith(self, op, a, b, e):
         if a is UNWRITTEN or b is UNWRITTEN:
@@ -2462,6 +2517,13 @@ class Machine(skel.Skel):
         if self.tu is None:
             return NotImplemented
         callee = self.tu.by_did.get(e["callee"].get("did"))
+        if callee is not None and callee.body is not None and callee.kind == "lambda":
+            if e["k"] != "CXXOperatorCallExpr" or e.get("op") != "()" or not args:
+                return NotImplemented
+            clo = self.ev(args[0])
+            if not (isinstance(clo, tuple) and len(clo) == 4 and clo[0] == "closure" and clo[1] == callee.did):
+                return NotImplemented           # the closure object is not known here: `cannot decide` (unknown call)
+            return self.call_closure(e, clo, args[1:])
         if callee is None or callee.body is None or callee.kind in ("dtor", "lambda"):
             return NotImplemented
         actual, new_obj = args, False
@@ -2481,8 +2543,13 @@ class Machine(skel.Skel):
             raise Undecidable("%s: the evaluation of the classifier nests more than 80 calls" % self.fn.nloc(e))
         return self.call(callee, actual, new_obj)
 
-    def call(self, callee, actual, new_obj=False, values=None):
+    def call(self, callee, actual, new_obj=False, values=None, binds=None):
         """runs callee in a frame of its own; actual: argument expressions of the current frame (or values: ready-made values)"""
+        if binds is None:
+            binds = self.bind_args(callee, actual, values)
+        return self.run_frame(callee, binds, new_obj)
+
+    def bind_args(self, callee, actual, values=None):
         binds = []
         for i, p in enumerate(callee.params):
             ty = (p.get("ty") or "").rstrip()
@@ -2509,6 +2576,9 @@ class Machine(skel.Skel):
                 binds.append(("ref", p, key))
             else:
                 binds.append(("val", p, self.ev(a)))
+        return binds
+
+    def run_frame(self, callee, binds, new_obj=False):
         dids = self._frame_dids(callee)
         saved_env = dict((d, self.env.pop(d)) for d in dids if d in self.env)
         saved_alias = dict((d, self.alias.pop(d)) for d in dids if d in self.alias)
@@ -2522,9 +2592,11 @@ class Machine(skel.Skel):
                 self.alias[p["did"]] = v
             else:
                 self.env[p["did"]] = v
-        saved_fn = self.fn
+        saved_fn, saved_act = self.fn, self.act
         self.fn = callee
         self.depth += 1
+        self.act_serial += 1
+        self.act = self.act_serial
         ret = None
         try:
             if new_obj:
@@ -2538,7 +2610,7 @@ class Machine(skel.Skel):
             except skel.Return as r_:
                 ret = r_.v
         finally:
-            self.fn = saved_fn
+            self.fn, self.act = saved_fn, saved_act
             self.depth -= 1
             for d in dids:
                 self.env.pop(d, None)
@@ -2573,6 +2645,24 @@ def classifier_classes(tu):
     return out
 
 
+def nodes_with_lambdas(fn, by_did):
+    """the nodes of fn and of the bodies of the lambdas made in it (the IR keeps a lambda's body as a function of its own)"""
+    todo, seen, out = [fn], set(), []
+    while todo:
+        f = todo.pop()
+        if f.did in seen:
+            continue
+        seen.add(f.did)
+        for x in f.nodes():
+            out.append(x)
+            if x["k"] == "LambdaExpr":
+                lf = by_did.get(x.get("fn")) if "fn" in x else None
+                if lf is None or lf.body is None:
+                    raise Undecidable("%s: the body of a lambda in %s() is not in the IR; what it classifies is not evaluated" % (f.nloc(x), fn.name))
+                todo.append(lf)
+    return out
+
+
 def stored_routines(fns, by_did):
     """the member functions whose result classify() stores: [(function, call node, classify instance)]; classify() is the entry point the
     sorters use (classifier.classify(strset, begin, end, bktout, depth))"""
@@ -2583,7 +2673,8 @@ def stored_routines(fns, by_did):
         raise Undecidable("%s: no instance of classify() of %s is in the IR" % (fns[0].loc, fns[0].record.split("::")[-1]))
     for c in cls:
         found = False
-        for x in c.nodes():
+        c_nodes = nodes_with_lambdas(c, by_did)
+        for x in c_nodes:
             if "callee" in x and x["callee"].get("did") in own and x.get("member_call") and kids(x) and strip_casts(kids(x)[0]) is not None \
                     and strip_casts(kids(x)[0])["k"] == "This":
                 cal = by_did[x["callee"]["did"]]
@@ -2595,7 +2686,7 @@ def stored_routines(fns, by_did):
                     out.append((cal, x, c))
         if not found:
             raise Undecidable("%s: classify() calls no member function of the classifier; a classification written out inside classify() is not evaluated" % c.loc)
-        for x in c.nodes():
+        for x in c_nodes:
             if this_member_access(x) and (_ARR.search(x.get("ty") or "") or (x.get("ty") or "").rstrip().endswith("*")):
                 raise Undecidable("%s: classify() reads the classifier's array %s itself; a classification written out inside classify() is not evaluated"
                                   % (c.nloc(x), x.get("member")))
